@@ -68,7 +68,7 @@ for variant, cls in (('inverse', 'KFACInverseLayer'), ('eigen', 'KFACEigenLayer'
              'and same(self._factor_update_steps, old(self._factor_update_steps)) and same(self._inv_update_steps, old(self._inv_update_steps))'),
             ('preconditioned_gradients_consumed', 'all(self._layers[m][1]._grad is None for m in self._layers)'),
         ],
-        loops={str(i): dict(index='i', invariants=(INV if i < 3 else INV3) + extra) for i, extra in enumerate([
+        loops={f'iter:reversed(list(self._layers.values()))#{i}': dict(index='i', invariants=(INV if i < 3 else INV3) + extra) for i, extra in enumerate([
             [], [], [],
             [('consumed_so_far', 'all(flayer(self, m)._grad is None for m in range(len(self._layers) - i, len(self._layers)))')],
         ])},
@@ -87,7 +87,7 @@ for variant, cls in (('inverse', 'KFACInverseLayer'), ('eigen', 'KFACEigenLayer'
         ensures=[('all_buffers_cleared', 'all(self._layers[m][1]._a_batch is None and self._layers[m][1]._g_batch is None and '
                                          'self._layers[m][1]._a_count == 0 and self._layers[m][1]._g_count == 0 for m in self._layers)'),
                  ('step_counter_kept', 'self._steps == old(self._steps)')],
-        loops={'0': dict(index='i', invariants=[
+        loops={'iter:self._layers.values()': dict(index='i', invariants=[
             ('cleared_prefix', 'all(flayer(self, m)._a_batch is None and flayer(self, m)._g_batch is None and '
                                'flayer(self, m)._a_count == 0 and flayer(self, m)._g_count == 0 for m in range(i))'),
             ('own_state_stable', 'self._layers == old(self._layers) and self._steps == old(self._steps)')])},
@@ -166,7 +166,9 @@ for variant, cls in (('inverse', 'KFACInverseLayer'), ('eigen', 'KFACEigenLayer'
             ('step_count_restored', "self._steps == state_dict['steps']"),
         ] + [(f'{h}_restored', f"implies('{h}' in state_dict, same(self._{h}, state_dict['{h}'])) and "
                                f"implies(not ('{h}' in state_dict), same(self._{h}, old(self._{h})))") for h in HYP],
-        loops={'0': dict(index='i', invariants=LINV), '0.0': dict(index='j', invariants=LINV), '1': dict(index='i', invariants=LINV)},
+        loops={"iter:state_dict['layers'].items()": dict(index='i', invariants=LINV),
+               'iter:self._layers.values()#0': dict(index='j', invariants=LINV),
+               'iter:self._layers.values()#1': dict(index='i', invariants=LINV)},
         modifies=['self._steps'] + [f'self._{h}' for h in HYP] + ['*._a_factor', '*._g_factor', '*._a_inv', '*._g_inv', '*._qa', '*._qg', '*._da',
                                                                    '*._dg', '*._dgda', '*.val', '*.resolved', 'ghost:trace', 'ghost:next_sid'],
     )
